@@ -422,5 +422,5 @@ func lapackRows() []*lroutine {
 		lvecEq("alpha", n, "lapack: bad length of alpha"), lvecEq("beta", n, "lapack: bad length of beta"),
 		usedIf(lmat("u", m, m), wu), usedIf(lmat("v", p, p), wv), usedIf(lmat("q", n, n), wq), lvec("work", times(2, n))).
 		mod("ldu", ldIf(wu, m)).mod("ldv", ldIf(wv, p)).mod("ldq", ldIf(wq, n)).menu(0, 1, 3))
-	return rs
+	return append(rs, lapackRows3()...)
 }
